@@ -46,6 +46,30 @@ func renderPat(p Pat) string {
 
 func renderTargets(ts []Target) string {
 	var parts []string
+	// several targets over one collection that all carry the same exclusions: the exclusions are written once, after them
+	if len(ts) >= 2 && len(ts[0].Excl) > 0 {
+		same := true
+		e0, _ := json.Marshal(ts[0].Excl)
+		for _, t := range ts[1:] {
+			e, _ := json.Marshal(t.Excl)
+			if t.Col != ts[0].Col || string(e) != string(e0) {
+				same = false
+			}
+		}
+		if same {
+			for _, t := range ts {
+				x := renderSel(t.Col, t.Sel)
+				if t.Count {
+					x = "&" + x
+				}
+				parts = append(parts, x)
+			}
+			for _, e := range ts[0].Excl {
+				parts = append(parts, "!"+renderSel(ts[0].Col, e))
+			}
+			return strings.Join(parts, "|")
+		}
+	}
 	for _, t := range ts {
 		x := renderSel(t.Col, t.Sel)
 		if t.Count {
